@@ -516,20 +516,25 @@ def rv_places(rv):
 
 def closure_locals_passed(f, call):
     """closure def paths whose aggregate flows (through simple moves/refs) into an argument of call"""
-    cl = {l: name for bb, l, name in f.closures_created()}
+    cache = getattr(f, "_cl_cache", None)
+    if cache is None:
+        cl = {l: name for bb, l, name in f.closures_created()}
+        alias = {}
+        if cl:
+            for i, j, p, rv, sp in f.assigns():
+                if len(p) != 1:
+                    continue
+                if rv["r"] == "use":
+                    l = op_local(rv["op"])
+                    if l is not None:
+                        alias[p[0]] = l
+                elif rv["r"] == "ref" and len(rv["p"]) == 1:
+                    alias[p[0]] = rv["p"][0]
+        cache = (cl, alias)
+        f._cl_cache = cache
+    cl, alias = cache
     if not cl:
         return []
-    # alias map: local -> source local for simple use/ref assignments
-    alias = {}
-    for i, j, p, rv, sp in f.assigns():
-        if len(p) != 1:
-            continue
-        if rv["r"] == "use":
-            l = op_local(rv["op"])
-            if l is not None:
-                alias[p[0]] = l
-        elif rv["r"] == "ref" and len(rv["p"]) == 1:
-            alias[p[0]] = rv["p"][0]
     out = []
     for a in call.args:
         l = op_local(a)
